@@ -91,3 +91,112 @@ def run_mat(chk, binary, ex):
             chk.sample({k: c[k] for k in ("kind", "nr", "rdofs", "cdofs", "pv", "pat", "gnnz")})
     chk.extra["mat_cases"] = total
     return total
+
+
+# ---- vectors, scalars, splitter, filters ------------------------------------------------------------------------
+def gen_vec(nr, nd):
+    name = "gen_SynchB_%d_%d_%d.cfg" % (nr, nd, os.getpid())
+    _cfg(name, "SPECIFICATION GenSpec\nCONSTANTS NR = %d ND = %d\nINVARIANTS EmitB LawSyncShared LawNorm\n" % (nr, nd))
+    try:
+        return vlib.tlc("Gen_SynchB", name, workers=1, timeout=1500)
+    finally:
+        _rm(name)
+
+
+def vec_plan(thorough):
+    return [(1, 3), (2, 3), (3, 3), (4, 2)] + ([(4, 3), (5, 2), (6, 2)] if thorough else [])
+
+
+def run_vec(chk, binary, ex):
+    thorough = chk.tier == "thorough"
+    gens = [(ex.submit(gen_vec, nr, nd), nr, nd) for nr, nd in vec_plan(thorough)]
+    total = 0
+    for f, nr, nd in gens:
+        r = f.result()
+        chk.add_tlc(r, "Gen_SynchB nr=%d nd=%d" % (nr, nd))
+        if r.violation:
+            chk.model_violation(r, "Gen_SynchB laws (nr=%d nd=%d)" % (nr, nd))
+        cases = list(r.printed)
+        # probe cases: the tickets of sync_*_async are waited for unconditionally (one process; two processes without a shared dof)
+        probes = []
+        if nr <= 2:
+            for c in cases:
+                if all(x == 1 for v in c["count"].values() for x in v):
+                    d = dict(c)
+                    d["kind"] = "asyncprobe"
+                    probes.append(d)
+                    break
+        total += replay(chk, binary, cases, nr, "c13_gvec",
+                        keyf=lambda c: json.dumps(["vec", c["nr"], c["dofs"]], sort_keys=True),
+                        nontrivial=lambda c: c["nr"] >= 2 and any(x >= 2 for v in c["count"].values() for x in v))
+        if cases:
+            # a pending scalar ticket that is moved before wait()
+            d = dict(cases[len(cases) // 2])
+            d["kind"] = "ticketprobe"
+            probes.append(d)
+        if probes:
+            total += replay(chk, binary, probes, nr, "c13_gvec", keyf=lambda c: json.dumps([c["kind"], c["nr"], c["dofs"]], sort_keys=True),
+                            nontrivial=lambda c: True, shards=1)
+        if nr == 3 and cases:
+            c = cases[len(cases) // 2]
+            chk.sample({k: c[k] for k in ("kind", "nr", "dofs", "vb0", "sync0b", "t2dofs", "tdot", "root", "base", "ssum", "smin")})
+    chk.extra["vec_cases"] = total
+    return total
+
+
+# ---- muxer ------------------------------------------------------------------------------------------------------
+def mux_plan(thorough):
+    all2 = "{{1}, {2}, {1, 2}}"
+    all3 = "{{1}, {2}, {3}, {1, 2}, {1, 3}, {2, 3}, {1, 2, 3}}"
+    # (nr, np, child patches, max groups)
+    plan = [(2, 3, all3, 2), (3, 2, all2, 3), (4, 2, all2, 2), (5, 2, "{{1}, {1, 2}}", 2), (6, 2, "{{1}, {1, 2}}", 2)]
+    if thorough:
+        plan = [(2, 3, all3, 2), (3, 3, all3, 3), (4, 2, all2, 4), (5, 2, all2, 2), (6, 2, all2, 2), (6, 2, "{{2}, {1, 2}}", 6)]
+    return plan
+
+
+def gen_mux(nr, np_, csets, maxg):
+    name = "gen_Muxer_%d_%d_%d_%d.cfg" % (nr, np_, maxg, os.getpid())
+    _cfg(name, "SPECIFICATION Spec\nCONSTANTS NR = %d NP = %d CSETS = %s MAXG = %d\nINVARIANTS Emit LawJoinSplit\n" % (nr, np_, csets, maxg))
+    try:
+        return vlib.tlc("Gen_Muxer", name, workers=1, timeout=1500)
+    finally:
+        _rm(name)
+
+
+def run_mux(chk, binary, ex):
+    thorough = chk.tier == "thorough"
+    gens = [(ex.submit(gen_mux, *p), p) for p in mux_plan(thorough)]
+    bynr = {}
+    for f, p in gens:
+        r = f.result()
+        chk.add_tlc(r, "Gen_Muxer nr=%d np=%d csets=%s maxg=%d" % p)
+        if r.violation:
+            chk.model_violation(r, "Gen_Muxer laws (%s)" % (p,))
+        bynr.setdefault(p[0], []).extend(r.printed)
+    total = 0
+    for nr in sorted(bynr):
+        seen, cases = set(), []
+        for c in bynr[nr]:
+            k = json.dumps([c["grp"], c["prank"], c["cdofs"]], sort_keys=True)
+            if k not in seen:
+                seen.add(k)
+                cases.append(c)
+        total += replay(chk, binary, cases, nr, "c13_gvec",
+                        keyf=lambda c: json.dumps(["mux", c["nr"], c["grp"], c["prank"], c["cdofs"]], sort_keys=True),
+                        nontrivial=lambda c: any(x >= 2 for x in c["gsize"].values()))
+        if nr == 4 and cases:
+            c = [x for x in cases if x["unequal"]][len(cases) // 3]
+            chk.sample({k: c[k] for k in ("kind", "nr", "grp", "prank", "cdofs", "cv", "join", "unequal")})
+    chk.extra["mux_cases"] = total
+    chk.extra["mux_unequal_child_sizes"] = sum(1 for nr in bynr for c in bynr[nr] if c["unequal"])
+    return total
+
+
+def run_ext(chk, gmat, gvec):
+    """all parts; returns the number of replayed cases"""
+    with cf.ThreadPoolExecutor(max_workers=4) as ex:
+        n = run_mat(chk, gmat, ex)
+        n += run_vec(chk, gvec, ex)
+        n += run_mux(chk, gvec, ex)
+    return n
